@@ -435,6 +435,7 @@ def check(ctx, report):
     key_sizes_defined(ctx, report)
     code_point_texts(ctx, report)
     rendering_parses_nothing(ctx, report)
+    plain_classes_render(ctx, report)
     report.floor('C14.R1', 20, 'iteration obligations')
     report.floor('C14.R4', 15, '_asdict overrides')
 
@@ -874,6 +875,45 @@ def rendering_parses_nothing(ctx, report, RULE='C14.R17'):
                         todo.append((g, depth + 1))
     report.count(RULE, n)
     report.floor(RULE, 40, 'functions on the way from _asdict')
+
+
+def plain_classes_render(ctx, report, RULE='C14.R18'):
+    """The generic traversal renders an object that is neither an attrs class nor has ``_asdict`` from its instance dictionary:
+    Markdown shows the names without a leading underscore (and ``-`` when there are none), JSON shows every name.  A parsable class
+    written with a plain ``__init__`` therefore needs a public rendering of its own, or at least one public attribute for every
+    private one it keeps (state kept only in ``self._x`` behind properties is lost in Markdown and leaks its private names into
+    JSON)."""
+    report.rule(RULE, 'parsable classes with a hand written initialiser have a rendering (_asdict) or keep their state in public attributes')
+    n = 0
+    for c in ctx.model.repo_classes():
+        if c.is_enum or c.has_attrs() or not ctx.model.is_parsable(c):
+            continue
+        init = c.resolve('__init__')
+        if init is None or init.module.external:
+            continue
+        n += 1
+        if c.resolve('_asdict') is not None:
+            continue
+        names = set()
+        for k in c.mro:
+            if not isinstance(k, ClassInfo):
+                continue
+            for f in k.methods.values():
+                me = f.node.args.args[0].arg if f.node.args.args else None
+                for x in ast.walk(f.node):
+                    if isinstance(x, ast.Attribute) and isinstance(x.ctx, ast.Store) and isinstance(x.value, ast.Name) and x.value.id == me:
+                        # an assignment to a property of the class stores into what its setter stores into
+                        if not any(isinstance(st, ast.FunctionDef) and st.name == x.attr and st.decorator_list for b in c.mro if isinstance(b, ClassInfo)
+                                   for st in b.node.body):
+                            names.add(x.attr)
+        private = sorted(a for a in names if a.startswith('_'))
+        public = sorted(a for a in names if not a.startswith('_'))
+        if private and not public:
+            report.add(RULE, '%s@rendering' % c.construct,
+                       '%s keeps its state in %s only and has no _asdict: Markdown renders every instance as "-", JSON shows the private names' % (
+                           c.name, ', '.join(private)))
+    report.count(RULE, n)
+    report.floor(RULE, 1, 'parsable classes with a hand written initialiser')
 
 
 def finite_numbers(ctx, report, RULE='C14.R10'):
